@@ -256,13 +256,15 @@ def qubit_map_shapes(qc, kind):
         qc.qubit_map = {**{f"q{i}": i for i in range(n)}, "_ret": n - 1, "alias0": 0}
     elif kind == "named":
         qc.qubit_map = {f"a.{i}" if i else "a": i for i in range(n)}
+    elif kind == "similar":      # names that differ only in punctuation / case (a bit of `a` next to a variable called a_0): still n different qubits
+        qc.qubit_map = {nm: i for i, nm in enumerate(["a.0", "a_0", "a.1", "A_0", "a_1", "a.0.0"][:n])}
 
 
 def job_qasm(a):
     nq, seqs = a
     out = []
     for seq in seqs:
-        for mk_ in ("default", "reordered", "aliased"):
+        for mk_ in ("default", "reordered", "aliased", "similar"):
             for version in (2, 3):
                 for mode in ("circuit", "gate"):
                     label = " ".join(f"{k}{list(w)}" + (f"({p:.4f})" if p else "") for k, w, p in seq)
